@@ -95,7 +95,7 @@ def run_strategy_case(ctx, kind_, idx):
     for i in range(len(mod) - 1):
         e = abs(float(ys[i]) - mod[i])
         worst = max(worst, e / scale)
-        if e > rel * scale:
+        if not e <= rel * scale:
             k, j = divmod(i, n)
             ctx.violation("differs_from_documented_model", cid,
                           {"sample": i, "interval": k, "i": j, "got": float(ys[i]), "model": mod[i],
